@@ -87,6 +87,7 @@ type input struct {
 	OTLPHist  bool      `json:"otlp_hist,omitempty"`
 	OTLPKeys  []string  `json:"otlp_keys,omitempty"`
 	Graphite  string    `json:"graphite,omitempty"`
+	GPrefix   []string  `json:"graphite_prefix,omitempty"` // global_prefix, prefix_counter, prefix_timer, prefix_gauge, prefix_set, global_suffix
 	StatsdTCP bool      `json:"statsd_tcp,omitempty"`
 	Special   int       `json:"special,omitempty"` // 0 finite values, 1 with +-Inf, 2 with NaN
 	// workers stream: the real BackendHandler + MetricFlusher with several aggregator workers
@@ -194,11 +195,29 @@ func genHist(r *hlib.Rand) input {
 	in.Limit = hlib.Pick(r, limits)
 	in.Expiry = r.Chance(1, 3)
 	in.Batch = hlib.Pick(r, batches)
+	if r.Chance(1, 3) {
+		in.Batch = r.Range(1, 40) // around the number of metrics of a flush: batches that are exactly full
+	}
+	if r.Chance(1, 3) {
+		pool := []string{"", "stats", "a.b", ".x.", "p q", "stats.timers"}
+		in.GPrefix = []string{hlib.Pick(r, pool), hlib.Pick(r, pool), hlib.Pick(r, pool), hlib.Pick(r, pool), hlib.Pick(r, pool), hlib.Pick(r, pool)}
+	}
 	in.InfluxV = r.Range(1, 2)
 	in.NRType = hlib.Pick(r, []string{"infra", "insights", "metrics", "metrics"})
 	in.OTLPHist = r.Bool()
-	if r.Chance(1, 3) {
+	if r.Chance(1, 2) {
 		in.OTLPKeys = [][]string{{"host"}, {"env", "a"}, {"a", "k", "missing"}, {""}}[r.Intn(4)]
+		if r.Chance(2, 3) {
+			// as an operator can write them: 0..3 keys, keys that match no tag, keys matching several
+			// tags of one metric (a:b, a:c, k:v:w, x:, le:1), and a key listed twice
+			in.OTLPKeys = nil
+			for k := r.Intn(4); k > 0; k-- {
+				in.OTLPKeys = append(in.OTLPKeys, hlib.Pick(r, []string{"host", "env", "a", "a", "k", "x", "region", "missing", "le", "statsdSource", ""}))
+			}
+			if n := len(in.OTLPKeys); n > 0 && n < 3 && r.Chance(1, 2) {
+				in.OTLPKeys = append(in.OTLPKeys, in.OTLPKeys[r.Intn(n)])
+			}
+		}
 	}
 	in.Graphite = hlib.Pick(r, []string{"legacy", "basic", "tags"})
 	in.StatsdTCP = r.Bool()
@@ -439,7 +458,13 @@ func (x *infra) build(in input) (*backendSet, error) {
 		ot["resource_keys"] = in.OTLPKeys
 	}
 	v.Set("otlp", ot)
-	v.Set("graphite", map[string]interface{}{"address": x.tcpAddr, "mode": in.Graphite})
+	gr := map[string]interface{}{"address": x.tcpAddr, "mode": in.Graphite}
+	for i, k := range []string{"global_prefix", "prefix_counter", "prefix_timer", "prefix_gauge", "prefix_set", "global_suffix"} {
+		if i < len(in.GPrefix) {
+			gr[k] = in.GPrefix[i]
+		}
+	}
+	v.Set("graphite", gr)
 	v.Set("statsdaemon", map[string]interface{}{"address": map[bool]string{true: x.tcpAddr, false: x.udpAddr}[in.StatsdTCP], "tcp_transport": in.StatsdTCP})
 	type ctor struct {
 		name string
